@@ -208,6 +208,14 @@ def r_gate(ck: Checker) -> None:
     ok = False
     from ..loops import lower_collect, module_constant
     fmap = callc[0].args[1] if callc and len(callc[0].args) == 2 else None
+    if callc and fmap is None and ck.repo.has_func(NODE, "_check_runtime_types"):
+        # keyword spelling of the arguments: positional view through the helper's parameter names
+        pn = [a_.arg for a_ in ck.repo.func(NODE, "_check_runtime_types").node.args.args]
+        kws = {k_.arg: k_.value for k_ in callc[0].keywords if k_.arg}
+        pos = list(callc[0].args) + [kws[n_] for n_ in pn[len(callc[0].args):] if n_ in kws]
+        if len(pos) == 2 and len(pos) == len(callc[0].args) + len(kws):
+            callc[0] = ast.copy_location(ast.Call(func=callc[0].func, args=pos, keywords=[]), callc[0])
+            fmap = pos[1]
     if isinstance(fmap, ast.Name):  # a local bound once inside the gated block
         binds = [st for st in walk_body(g.body) if isinstance(st, (ast.Assign, ast.AnnAssign)) and norm(st.targets[0] if isinstance(st, ast.Assign) else st.target) == fmap.id]
         if len(binds) == 1 and binds[0].value is not None:
